@@ -181,6 +181,35 @@ func (e *Env) lookup(name string) (TVal, bool) {
 				}
 			}
 		}
+		// a package-level variable or constant of a directly imported package, by its bare
+		// name, when exactly one import declares it
+		var hit ssa.Member
+		n := 0
+		for _, imp := range e.pkg.Pkg.Imports() {
+			sp := e.x.eng.ssaPkg(imp.Path())
+			if sp == nil {
+				continue
+			}
+			if m, ok := sp.Members[name]; ok {
+				switch m.(type) {
+				case *ssa.Global, *ssa.NamedConst:
+					hit = m
+					n++
+				}
+			}
+		}
+		if n == 1 {
+			switch m := hit.(type) {
+			case *ssa.Global:
+				addr := e.x.globalAddr(m)
+				el := m.Type().(*types.Pointer).Elem()
+				return TVal{e.load(addr, el), el}, true
+			case *ssa.NamedConst:
+				if tv, ok := constToTVal(m.Value.Value, m.Type()); ok {
+					return tv, true
+				}
+			}
+		}
 	}
 	return TVal{}, false
 }
@@ -636,6 +665,18 @@ func (e *Env) evalCall(c *CCall) TVal {
 	case "cap":
 		x := e.Eval(c.Args[0])
 		return mathInt(x.V.F[2].T)
+	case "haskey":
+		// haskey(m, k): the Go map m has an entry for key k
+		m := e.Eval(c.Args[0])
+		k := e.Eval(c.Args[1])
+		if m.T != nil {
+			if _, ok := m.T.Underlying().(*types.Map); ok && !k.V.IsComp() {
+				hin := e.x.mapHeap(e.curHeaps(), "mapin:"+typeKey(m.T), true)
+				return mathBool(And(Not(Eq(m.V.T, "0")), Sel(Sel(hin, m.V.T), k.V.T)))
+			}
+		}
+		e.errorf("haskey: not a map with scalar keys")
+		return mathBool("false")
 	case "abs":
 		return mathInt(Abs(argT(0)))
 	case "sgn":
